@@ -55,7 +55,7 @@ type Run struct {
 	Assume   []string
 	Exhaust  bool
 	Extra    map[string]interface{}
-	MinEvals int64 // fewer observed events than this => inconclusive
+	MinEvals int64    // fewer observed events than this => inconclusive
 	Required []string // classes that must have been observed at least once
 }
 
